@@ -4,6 +4,8 @@ import Mimium.Props.C05
 import Mimium.Proofs.CoreSoundMachine
 import Mimium.Proofs.CoreCheckComplete
 import Mimium.Proofs.MirWfFn
+import Mimium.Proofs.UnifyStrictStore
+import Mimium.Gen.Unify
 /-!
 # C03 — programs accepted by the type checker run without crashes or memory errors
 
@@ -454,3 +456,95 @@ example :
       (inferWf (Fn.build "good" none [1] [] (.fn []) 4 1 [[.load 1 (.reg 0) 1, .bin .addf 2 (.reg 1) (.reg 0), .ret (.reg 2) 1]])) = true := by
   decide +kernel
 end Mimium.Mir
+
+/-! ## The real checker's UNIFICATION (`typing/unification.rs`), ported whole (`Model/Unify.lean`, namespace `Mimium.Unify`)
+
+`go g f false` = `unify_types`, `go g f true` = `unify_types_args` (every arm of both `match` tables, `unify_vec`, the record arm with
+its four passes, the union arms with the bindings their failed attempts leave), tied to the real functions by the stream
+`unification` of `tools/props/c03.py` (exact agreement on verdict, error kinds, parents and `substitute_type` of every variable).
+
+* `C03_unify_sound` — what an `Ok(_)` of the real unification MEANS: its two arguments are related by `Len σ'` (`Model/UnifySpec.lean`)
+  in the store it leaves — equality modulo the bindings (`SEq`) weakened by one clause per lenient arm.  The clauses ARE the finding:
+  `tupleSameLength` (`unify_vec` drops the errors of the members: two tuples of the same length unify, so the ARGUMENT TYPES of every
+  call with two or more arguments are unchecked — K1, K9, K16), `tuple1L/R`, `argsTuple1L/R`, `argsRecord1L/R` (a one-element pack is
+  its element), `argsRecordTuple` (parameters against arguments by position, keys forgotten), `unitTuple0`/`unitRecord0`,
+  `anyL/R`, `failureL/R`, `boxedL/R`, `record` (fields on one side only are accepted), `unionL/R/Both`, `argsUnionL`.
+  The same holds when the answer is `Err(vec![])` (an error WITHOUT any diagnostic: `unify_vec` on members of both variances).
+* `C03_unify_strict_fragment` — the converse boundary: on types without tuples, records, unions, `Boxed`, `Any`, `Failure` (the two
+  arguments and the parents of the store the call starts from) none of the lenient clauses applies: success implies the textbook
+  statement `SEq`, and the store stays in the fragment.
+* `C03_unification_functions_pinned` — the bodies of unification.rs are the ones the port was made from (hashes, arm counts).
+NOT proved: completeness (that unifiable types are unified), principality, anything about `typing.rs` (what it asks to be unified). -/
+namespace Mimium.Unify
+
+/-- **Soundness of the real unification, with its leniencies spelled out.**  For ALL stores, types, fuels: if `unify_types`
+(`args = false`) / `unify_types_args` (`args = true`) started on an acyclic store answers `Ok(_)` — or fails with an EMPTY error
+list — then in the store `σ'` it leaves its arguments are `Len`-related. -/
+theorem C03_unify_sound (g f : Nat) (args : Bool) (σ σ' : Store) (t1 t2 : Ty) (r : Res)
+    (hσ : Occurs.Acyclic (absS σ)) (h : go g f args σ t1 t2 = some (σ', r))
+    (hr : (∃ rel, r = .ok rel) ∨ r = .error []) : Len σ' args t1 t2 := by
+  refine go_sound g f args σ t1 t2 σ' r hσ h ?_
+  rcases hr with ⟨rel, rfl⟩ | rfl <;> rfl
+
+/-- **The converse boundary.**  On the fragment without tuples, records, unions, `Boxed`, `Any`, `Failure` (the two types and the
+parents of the store the call starts from) a successful unification establishes syntactic equality modulo the bindings — the
+textbook statement — and the store it leaves is again in the fragment. -/
+theorem C03_unify_strict_fragment (g f : Nat) (args : Bool) (σ σ' : Store) (t1 t2 : Ty) (rel : Rel)
+    (hσ : Occurs.Acyclic (absS σ)) (h : go g f args σ t1 t2 = some (σ', .ok rel))
+    (h1 : strict t1 = true) (h2 : strict t2 = true) (hS : StrictStore σ) : SEq σ' t1 t2 ∧ StrictStore σ' :=
+  have hS' := go_strict g f args σ t1 t2 hS h1 h2 σ' _ h
+  ⟨len_strict hS' (C03_unify_sound g f args σ σ' t1 t2 (.ok rel) hσ h (.inl ⟨rel, rfl⟩)) h1 h2, hS'⟩
+
+/-- obligation: every function of `typing/unification.rs` (test and hook modules aside) has the text `Model/Unify.lean` was ported
+from, and the two `match` tables have the arms the port has (12 and 26) -/
+theorem C03_unification_functions_pinned :
+    Mimium.Gen.unifyFns = Mimium.Gen.unifyFnsPinned ∧ Mimium.Gen.unifyArms = Mimium.Gen.unifyArmsPinned ∧
+    Mimium.Gen.unifyArms = [("unify_types_args", 12), ("unify_types", 26)] := by decide
+
+/-! ### witnesses (kernel-evaluated; each is replayed on the real `unify_types` by `corpus/C03/unify.txt`) -/
+
+/-- K16 (root of K1 / K9): tuples of the same length unify whatever their members — `(float, string)` with `(float, float)` -/
+example : verdict (unify 8 8 [] (.tuple [.prim .num, .prim .str]) (.tuple [.prim .num, .prim .num])) = some (.ok .ident) ∧
+    verdict (unify 8 8 [] (.prim .str) (.prim .num)) = some (.error [.mismatch]) := by decide +kernel
+
+/-- K1 at the level of unification: `fn f1(a3, a4){ a3(1.0) }` called as `f1(0.3, 0.007)` — the parameter pack `{a3: (float)->?0, a4: ?1}`
+against the argument pack `(float, float)`: `(float)->?0` against `float` fails, `unify_vec` drops the error, the call type-checks -/
+example : verdict (unify 16 16 [] (.fn (.record [⟨0, false, .fn (.prim .num) (.var 0)⟩, ⟨1, false, .var 1⟩]) (.var 2))
+      (.fn (.tuple [.prim .num, .prim .num]) (.var 3))) = some (.ok .ident) := by decide +kernel
+
+/-- K9: a parameter the body makes a pair, a number passed for it -/
+example : verdict (unify 16 16 [] (.fn (.record [⟨0, false, .var 0⟩, ⟨1, false, .tuple [.prim .num, .prim .num]⟩]) (.var 2))
+      (.fn (.tuple [.prim .num, .prim .num]) (.var 3))) = some (.ok .ident) := by decide +kernel
+
+/-- K10 / K8 (arity): a function of ONE un-annotated parameter has that parameter's type as its `arg`, so a call with two arguments
+binds the parameter to the pair of them and a call with none binds it to `unit`; with an annotation both are refused -/
+example :
+    verdict (unify 16 16 [] (.fn (.var 0) (.var 1)) (.fn (.tuple [.prim .num, .prim .num]) (.var 2))) = some (.ok .ident) ∧
+    ((parentAfter (unify 16 16 [] (.fn (.var 0) (.var 1)) (.fn (.tuple [.prim .num, .prim .num]) (.var 2))) 0).bind asTuple).map List.length = some 2 ∧
+    verdict (unify 16 16 [] (.fn (.var 0) (.var 1)) (.fn (.prim .unit) (.var 2))) = some (.ok .ident) ∧
+    verdict (unify 16 16 [] (.fn (.prim .num) (.var 1)) (.fn (.tuple [.prim .num, .prim .num]) (.var 2))) = some (.error [.mismatch]) ∧
+    verdict (unify 16 16 [] (.fn (.prim .num) (.var 1)) (.fn (.prim .unit) (.var 2))) = some (.error [.mismatch]) := by decide +kernel
+
+/-- K4: a one-element tuple is its element, in both directions and at any depth; `unit` is `()` and `{}` -/
+example : verdict (unify 8 8 [] (.prim .num) (.tuple [.tuple [.prim .num]])) = some (.ok .ident) ∧
+    verdict (unify 8 8 [] (.tuple []) (.prim .unit)) = some (.ok .ident) ∧
+    verdict (unify 8 8 [] (.prim .unit) (.record [])) = some (.ok .ident) := by decide +kernel
+
+/-- an error WITHOUT a diagnostic: members of both variances make `unify_vec` return `Err(vec![])` -/
+example : verdict (unify 16 16 [] (.tuple [.record [⟨0, false, .prim .num⟩], .record [⟨0, false, .prim .num⟩, ⟨1, false, .prim .num⟩]])
+      (.tuple [.record [⟨0, false, .prim .num⟩, ⟨1, false, .prim .num⟩], .record [⟨0, false, .prim .num⟩]])) = some (.error []) := by
+  decide +kernel
+
+/-- the converse of soundness fails even for IDENTICAL types (so there is no `C03_unify_error_means_clash`): `TypeAlias(A)` against
+`TypeAlias(A)` and `Unknown` against `Unknown` fall through both tables to `TypeMismatch` (typing.rs resolves aliases and replaces
+`Unknown` by fresh variables before it asks) -/
+example : verdict (unify 8 8 [] (.alias 0) (.alias 0)) = some (.error [.mismatch]) ∧
+    verdict (unify 8 8 [] .unknown .unknown) = some (.error [.mismatch]) := by decide +kernel
+
+/-- non-vacuity of the strict fragment: `(?0) -> [float]` against `(float) -> ?1` binds both, nothing lenient is involved;
+and the occurs check refuses `?0 := [?0]` -/
+example : verdict (unify 16 16 [] (.fn (.var 0) (.array (.prim .num))) (.fn (.prim .num) (.var 1))) = some (.ok .ident) ∧
+    strict (.fn (.var 0) (.array (.prim .num))) = true ∧
+    verdict (unify 16 16 [] (.var 0) (.array (.var 0))) = some (.error [.circular]) := by decide +kernel
+
+end Mimium.Unify
